@@ -309,9 +309,10 @@ def r5_1(ctx):
                                 break
                         if same is None:
                             continue
+                    if not same and len(adds) == 1 and not any(l[0] == "set" for l in ols if id(l[3]) not in handled_ls):
+                        same = adds
                     if not same or el is None:
-                        any_len = [l for l in ols if _reaches_without(g, st, l[3], []) or _reaches_without(g, l[3], st, [])]
-                        if not any_len:
+                        if not adds:
                             ctx.violation(f.fq, short(st), where, f"a fragment is appended to {obj}._text but {obj}._length is not increased by its length in the same block")
                             continue
                         raise AnalysisError(f"{f.fq}: cannot pair `{short(st)}` with the update of {obj}._length that accounts for it")
